@@ -333,6 +333,7 @@ func runC06(c *fw.Ctx) {
 	}
 	if c.Shard == 0 {
 		c06CreateOver(c)
+		c06NamedMethods(c)
 		now := Clocks(LP.Archs, false, []string{"mid"})[0]
 		cfg := ACfg{Tag: LP.Tag, Spec: LP.Spec, Archs: LP.Archs, Method: 2, XFF: 0, Page: 4096}
 		e := &Explorer{C: c, Cfg: cfg, Now0: now, Depth: 2, Gen: c01Gen(cfg.Archs), Judge: c06FormatJudge, MaxCore: 12}
@@ -360,6 +361,14 @@ func replayC06(c *fw.Ctx, raw json.RawMessage) (bool, string) {
 		}
 		return false, "Create over existing files leaves exact-length files"
 	}
+	if k.Kind == "named-methods" {
+		c2 := &fw.Ctx{Prop: c.Prop, Tier: "quick", Of: 1, Dir: c.Dir, Deadline: c.Deadline, R: fw.NewResult()}
+		c06NamedMethods(c2)
+		for _, v := range c2.R.Violations {
+			return true, v.Desc
+		}
+		return false, "every named method is stored under its classic code"
+	}
 	k.Cfg.Archs = wsp.ParseLayout(k.Cfg.Spec)
 	vrt.SetPagesize(k.Cfg.Page)
 	p := filepath.Join(c.Dir, "x.wsp")
@@ -383,6 +392,70 @@ func replayC06(c *fw.Ctx, raw json.RawMessage) (bool, string) {
 
 // c06CreateOver: Create with caller-supplied open flags over an existing file that is larger, smaller or equal
 // in size: after Sync the file must still be exactly header + 12 x points long and parse as a classic file.
+// c06NamedMethods: the number stored in the aggregation field is the classic one for the method of that NAME - by the
+// library's named constant, by its name parser and as go-whisper names it - in both directions.
+func c06NamedMethods(c *fw.Ctx) {
+	type nm struct {
+		name string
+		code uint32
+		wtc  wt.AggregationMethod
+		gwc  gw.AggregationMethod
+	}
+	names := []nm{{"average", 1, wt.Average, gw.Average}, {"sum", 2, wt.Sum, gw.Sum}, {"last", 3, wt.Last, gw.Last},
+		{"max", 4, wt.Max, gw.Max}, {"min", 5, wt.Min, gw.Min}, {"first", 6, wt.First, gw.First}}
+	ld := LayoutByTag("L5")
+	vrt.SetPagesize(4096)
+	bad := func(desc string, n nm) {
+		c.Violate("C06/format/aggregation-code-of-named-method", desc, int(n.code), c06Case{Kind: "named-methods"}, "")
+	}
+	for _, n := range names {
+		c.Count("transitions", 1)
+		p := filepath.Join(c.Dir, "named.wsp")
+		os.Remove(p)
+		parsed, perr := wt.AggregationMethodString(n.name)
+		if perr != nil || parsed != n.wtc || n.wtc.String() != n.name {
+			bad(fmt.Sprintf("method name %q parses to %v (%v); the constant prints as %q", n.name, parsed, perr, n.wtc.String()), n)
+			continue
+		}
+		db, err := wt.Create(p, archList(ld.Archs), n.wtc, 0.5)
+		if err != nil {
+			continue
+		}
+		db.Sync()
+		db.Close()
+		b, _ := os.ReadFile(p)
+		if len(b) < 4 || uint32(b[3]) != n.code || b[0]|b[1]|b[2] != 0 {
+			bad(fmt.Sprintf("a file created with method %s stores aggregation code %x, classic whisper uses %d", n.name, b[:4], n.code), n)
+			continue
+		}
+		if g, err := gw.Open(p); err != nil || g.AggregationMethod() != n.gwc {
+			bad(fmt.Sprintf("go-whisper reads a file created with method %s as %v (%v)", n.name, g.AggregationMethod(), err), n)
+			if g != nil {
+				g.Close()
+			}
+			continue
+		} else {
+			g.Close()
+		}
+		// the other direction: written by go-whisper under that name
+		os.Remove(p)
+		rets, _ := gw.ParseRetentionDefs(ld.Spec)
+		g, err := gw.Create(p, rets, n.gwc, 0.5)
+		if err != nil {
+			continue
+		}
+		g.Close()
+		w, err := wt.Open(p)
+		if err != nil || w.AggregationMethod() != n.wtc || w.AggregationMethod().String() != n.name {
+			bad(fmt.Sprintf("whispertool reads a %s file written by go-whisper as %v (%v)", n.name, w.AggregationMethod(), err), n)
+		}
+		if w != nil {
+			w.Close()
+		}
+		c.Count("traces_validated_against_impl", 1)
+	}
+}
+
 func c06CreateOver(c *fw.Ctx) {
 	for _, tag := range []string{"L2", "L5", "L9"} {
 		ld := LayoutByTag(tag)
